@@ -43,6 +43,8 @@ def check_class(sw: Sweep, name: str, cls, inst, sample_value=None, meta=False):
     pr = list(inst.priorities.keys()) if inst is not None else None
     slots = set(cls.__slots__) if hasattr(cls, "__slots__") else None
     fm = cls.formatter(sample_value) if sample_value is not None else cls.formatter()
+    sw.check(set(table) == set(fm), "the pattern table and the directive table of a class list different directives",
+             {"cls": name, "clause": "tables-agree", "meta": meta}, sorted(fm), sorted(table))
     for d, rx in table.items():
         case = {"cls": name, "directive": d, "meta": meta}
         sw.note(["dir", name, d], "directive")
@@ -103,6 +105,17 @@ def sweep(tier: str) -> Sweep:
     L = 2 if tier == "quick" else 3
     for name, cls in classic.items():
         check_class(sw, name, cls, cls())
+        if name.startswith("Serial"):
+            # a configuration subclass must get patterns for ITS widths: the renderings of its own
+            # directives are accepted by its own patterns
+            w = cls.Config.serial_max_padding
+            for v in (0, 7, 10 ** w - 1):
+                fmv = cls.formatter(v)
+                for d in ("%n", "%p", "%b", "%c", "%u"):
+                    text = fmv[d]["value"]()
+                    sw.note(["config", name, d, v], "config")
+                    sw.check(re.fullmatch(cls.regex()[d], text) is not None, "a directive's pattern rejects the class's own rendering (stale or foreign table)",
+                             {"cls": name, "directive": d, "clause": "config-pattern", "value": v}, text, cls.regex()[d])
         check_sequences(sw, name, cls, r, L, 400 if tier == "quick" else 4000)
     for name, cls in assets.items():
         table = cls.regex()
